@@ -58,6 +58,10 @@ CHECKS = {
     'C16': ('model_checking', 'DESIGN.md C16',
             'One mapput step from an arbitrary valid open-addressing table with unconstrained hash values (all collision/wrap patterns, with and without rehash); '
             'keyequal; innermost-declaration lookup over a symbolic placement of names in 3 scopes; string pool never merges literals that differ in size or bytes.'),
+    'C17': ('model_checking', 'DESIGN.md C17',
+            'driver.c:main on ~90 generated option shapes (mode flags x input types, every forwarding option attached/detached, -x, -o, -W?, payloads, usage errors) with symbolic '
+            'argument characters: every spawned command (tool, base command, target flag, forwarded options in order, input/output names, pipeline wiring) equals the expectation '
+            'of a model of cproc(1); invalid combinations exit 2 before anything is spawned.'),
     'C18': ('model_checking', 'DESIGN.md C18',
             'buildobj/buildexe of the real driver.c under a symbolic fault schedule: failing spawn index, every child status, and the order wait() reports children '
             'are solver variables; asserts exit status, SIGTERM to survivors, reaping of every child, removal of outputs/temporaries, no wait() without a child.'),
